@@ -583,4 +583,108 @@ Proof.
   assert (Hn' : NoDup (blks (groups u))) by (destruct mrg; exact Hn).
   cbv zeta. apply (@fu_poll_victim mrg u t _ pre g post); auto.
 Qed.
+
+(** *** several polls: as long as nothing is pushed, a group at distance [d] from the cursor is
+    polled within [d + 1] polls — whatever the other groups yield in the meantime and whatever
+    wakes arrive between the polls *)
+Definition poll_or_env (o : op) : Prop :=
+  match o with OPoll _ _ | OEnv _ | OObs | OMove | OCleanup => True | _ => False end.
+
+Fixpoint npolls (ops : list op) : nat :=
+  match ops with [] => 0 | OPoll _ _ :: r => S (npolls r) | _ :: r => npolls r end.
+
+Lemma reach_app a b : reach P (a ++ b) = run_state P (reach P a) b.
+Proof.
+  unfold reach. generalize init_state. induction a as [|o a IH]; intros s; simpl; auto.
+Qed.
+
+Definition Cu (mrg : bool) (u : fu) : coll := if mrg then CMu u else CFu u.
+
+Lemma step_keeps_coll s o (mrg : bool) u :
+  st_coll s = Cu mrg u ->
+  match o with OEnv _ | OObs | OMove | OCleanup => True | _ => False end ->
+  st_coll (fst (step_op P s o)) = Cu mrg u.
+Proof.
+  intros Hc Ho. unfold step_op. rewrite Hc. destruct mrg; simpl; destruct o; try contradiction; reflexivity.
+Qed.
+
+Lemma step_poll_coll s t i (mrg : bool) u :
+  st_coll s = Cu mrg u ->
+  st_coll (fst (step_op P s (OPoll t i))) = Cu mrg (fst (fst (fu_poll_next P mrg u t (begin_op i (st_world s))))).
+Proof.
+  intros Hc. unfold step_op. rewrite Hc. destruct mrg; simpl;
+    destruct (fu_poll_next P _ u t (begin_op i (st_world s))) as [[u' sp] w']; reflexivity.
+Qed.
+
+Theorem group_polled_within_its_distance ops0 ops (mrg : bool) u pre g post :
+  st_coll (reach P ops0) = Cu mrg u -> rot u = pre ++ g :: post -> Forall poll_or_env ops ->
+  (exists ops1 t i ops2 u1,
+      ops = ops1 ++ OPoll t i :: ops2 /\ st_coll (reach P (ops0 ++ ops1)) = Cu mrg u1 /\ In g (groups u1)
+      /\ polled_in mrg g t (begin_op i (st_world (reach P (ops0 ++ ops1))))
+                   (snd (fu_poll_next P mrg u1 t (begin_op i (st_world (reach P (ops0 ++ ops1)))))))
+  \/ (exists u' pre' post', st_coll (reach P (ops0 ++ ops)) = Cu mrg u' /\ rot u' = pre' ++ g :: post'
+                            /\ length pre' + npolls ops <= length pre).
+Proof.
+  intros Hc Hrot Hall. revert ops0 u pre post Hc Hrot.
+  induction Hall as [|o ops Ho Hall IH]; intros ops0 u pre post Hc Hrot.
+  - right. exists u, pre, post. rewrite app_nil_r. simpl. splits; auto; lia.
+  - destruct o as [ty p inits ups|c sc|c sc|c sc|c sc|t i|a| | | | ]; try contradiction.
+    + (* a poll *)
+      pose proof (@reachable_group_not_starved ops0 mrg u t i pre g post Hc Hrot) as Hv. cbv zeta in Hv.
+      assert (Hnext : st_coll (reach P (ops0 ++ [OPoll t i]))
+                      = Cu mrg (fst (fst (fu_poll_next P mrg u t (begin_op i (st_world (reach P ops0))))))).
+      { rewrite reach_app. simpl. apply step_poll_coll; auto. }
+      destruct (fu_poll_next P mrg u t (begin_op i (st_world (reach P ops0)))) as [[u' sp] w'] eqn:Ep.
+      cbn [fst snd] in *.
+      destruct Hv as [Hpolled | (tk & c & pre' & post' & Hsp & Hrot' & Hlt & Hfr)].
+      * left. exists [], t, i, ops, u. rewrite app_nil_r, Ep. splits; auto.
+        apply rot_in. rewrite Hrot. apply in_or_app; right; left; auto.
+      * destruct (IH (ops0 ++ [OPoll t i]) u' pre' post' Hnext Hrot') as
+            [(ops1 & t1 & i1 & ops2 & u1 & E1 & E2 & E3 & E4) | (u2 & pre2 & post2 & F1 & F2 & F3)].
+        -- left. exists (OPoll t i :: ops1), t1, i1, ops2, u1. rewrite <- app_assoc in E2, E4. simpl in E2, E4.
+           splits; auto. simpl. rewrite E1. reflexivity.
+        -- right. exists u2, pre2, post2. rewrite <- app_assoc in F1. simpl in F1. splits; auto. simpl. lia.
+    + (* environment: a waker action *)
+      assert (Hnext : st_coll (reach P (ops0 ++ [OEnv a])) = Cu mrg u).
+      { rewrite reach_app. simpl. apply step_keeps_coll; auto; exact I. }
+      destruct (IH (ops0 ++ [OEnv a]) u pre post Hnext Hrot) as
+          [(ops1 & t1 & i1 & ops2 & u1 & E1 & E2 & E3 & E4) | (u2 & pre2 & post2 & F1 & F2 & F3)].
+      * left. exists (OEnv a :: ops1), t1, i1, ops2, u1. rewrite <- app_assoc in E2, E4. simpl in E2, E4.
+        splits; auto. simpl. rewrite E1. reflexivity.
+      * right. exists u2, pre2, post2. rewrite <- app_assoc in F1. simpl in F1. splits; auto.
+    + assert (Hnext : st_coll (reach P (ops0 ++ [OObs])) = Cu mrg u).
+      { rewrite reach_app. simpl. apply step_keeps_coll; auto; exact I. }
+      destruct (IH (ops0 ++ [OObs]) u pre post Hnext Hrot) as
+          [(ops1 & t1 & i1 & ops2 & u1 & E1 & E2 & E3 & E4) | (u2 & pre2 & post2 & F1 & F2 & F3)].
+      * left. exists (OObs :: ops1), t1, i1, ops2, u1. rewrite <- app_assoc in E2, E4. simpl in E2, E4.
+        splits; auto. simpl. rewrite E1. reflexivity.
+      * right. exists u2, pre2, post2. rewrite <- app_assoc in F1. simpl in F1. splits; auto.
+    + assert (Hnext : st_coll (reach P (ops0 ++ [OMove])) = Cu mrg u).
+      { rewrite reach_app. simpl. apply step_keeps_coll; auto; exact I. }
+      destruct (IH (ops0 ++ [OMove]) u pre post Hnext Hrot) as
+          [(ops1 & t1 & i1 & ops2 & u1 & E1 & E2 & E3 & E4) | (u2 & pre2 & post2 & F1 & F2 & F3)].
+      * left. exists (OMove :: ops1), t1, i1, ops2, u1. rewrite <- app_assoc in E2, E4. simpl in E2, E4.
+        splits; auto. simpl. rewrite E1. reflexivity.
+      * right. exists u2, pre2, post2. rewrite <- app_assoc in F1. simpl in F1. splits; auto.
+    + assert (Hnext : st_coll (reach P (ops0 ++ [OCleanup])) = Cu mrg u).
+      { rewrite reach_app. simpl. apply step_keeps_coll; auto; exact I. }
+      destruct (IH (ops0 ++ [OCleanup]) u pre post Hnext Hrot) as
+          [(ops1 & t1 & i1 & ops2 & u1 & E1 & E2 & E3 & E4) | (u2 & pre2 & post2 & F1 & F2 & F3)].
+      * left. exists (OCleanup :: ops1), t1, i1, ops2, u1. rewrite <- app_assoc in E2, E4. simpl in E2, E4.
+        splits; auto. simpl. rewrite E1. reflexivity.
+      * right. exists u2, pre2, post2. rewrite <- app_assoc in F1. simpl in F1. splits; auto.
+Qed.
+
+Corollary group_polled_within_distance_plus_one ops0 ops (mrg : bool) u pre g post :
+  st_coll (reach P ops0) = Cu mrg u -> rot u = pre ++ g :: post -> Forall poll_or_env ops ->
+  length pre < npolls ops ->
+  exists ops1 t i ops2 u1,
+      ops = ops1 ++ OPoll t i :: ops2 /\ st_coll (reach P (ops0 ++ ops1)) = Cu mrg u1 /\ In g (groups u1)
+      /\ polled_in mrg g t (begin_op i (st_world (reach P (ops0 ++ ops1))))
+                   (snd (fu_poll_next P mrg u1 t (begin_op i (st_world (reach P (ops0 ++ ops1)))))).
+Proof.
+  intros Hc Hrot Hall Hlt.
+  destruct (@group_polled_within_its_distance ops0 ops mrg u pre g post Hc Hrot Hall) as [H|(u' & pre' & post' & _ & _ & F)]; auto.
+  lia.
+Qed.
 End WithParams.
